@@ -64,6 +64,10 @@ PATHS = [
     ("error-value", "error {S}"), ("error-map", "error {M}"), ("catch-set", "do error {S} catch {S} 'caught' end"),
     ("set-as-key", "string(<<< {S} => 1, {S2} => 2 >>>)"), ("set-of-sets", "string(<< {S}, {S2} >>)"), ("equality", "[{S} == {S}, {M} == {M}, {S} == {S2}]"),
     ("new-object", "def o = <*a = 1*>; def n = new(<*x = {S} *>); string(n->x)"), ("sum", "sum([length(string(x)) for x in {S}])"),
+    ("sorted-key-ties", "sorted({S}, key = fn(x) length(string(x)))"), ("sorted-cmp-all-equal", "sorted({S}, cmp = fn(a, b) 0)"),
+    ("sorted-key-constant", "sorted({S}, key = fn(x) 1)"), ("sorted-key-ties-ints", "sorted(<< 16, 8, 0, 24, 3 >>, key = fn(x) x % 8)"),
+    ("sorted-map-keys-ties", "sorted(set({M}), key = fn(x) 0)"), ("min-key-ties", "min(list({S}), key = fn(x) 0)"),
+    ("grouped-set", "grouped(sorted({S}, key = fn(x) length(string(x))), key = fn(x) length(string(x)))"),
     ("type-checks", "[x is string for x in {S}]"), ("contains", "[contains({S}, 'a'), 'a' in {M}]"), ("if-empty", "[{S} is empty, {M} is not empty]"),
 ]
 
@@ -77,9 +81,13 @@ def plan(tier, seed):
     return specs
 
 
+PUN_ELEMS = ["TRUE", "1", "FALSE", "0", "'ab'", "//ab//", "2", "'1'", "'TRUE'", "//1//", "[1]", "[TRUE]"]   # host-type puns: True == 1, 'ab' vs //ab//
+
+
 def gen_collections(r):
     """element lists for S, S2, M (as source strings)"""
-    pool = STR_ELEMS if r.random() < 0.6 else MIX_ELEMS
+    k = r.random()
+    pool = STR_ELEMS if k < 0.5 else (MIX_ELEMS if k < 0.8 else PUN_ELEMS)
     a = r.sample(pool, r.randint(2, 5))
     b = r.sample(pool, r.randint(2, 4))
     keys = r.sample(STR_ELEMS if r.random() < 0.7 else MIX_ELEMS, r.randint(2, 4))
